@@ -19,7 +19,7 @@ cnt = collections.Counter()
 shown = 0
 for r in recs:
     for cfg in cfgs:
-        im = r["impl"][cfg]
+        im = r["impl"].get(cfg)
         if im is None: continue
         if "crash" in r and cfg in r["crash"]:
             cnt["crash"] += 1
